@@ -10,6 +10,9 @@ import (
 	"testing"
 
 	"google.golang.org/grpc"
+	"google.golang.org/grpc/metadata"
+	"google.golang.org/protobuf/proto"
+	"google.golang.org/protobuf/types/known/wrapperspb"
 	"pgregory.net/rapid"
 	"verifharness/kit"
 )
@@ -194,3 +197,15 @@ func tapSummary(evs []kit.Ev, max int) []string {
 }
 
 type grpcServerStream = grpc.ServerStream
+type metadataMD = metadata.MD
+
+type grpcConn = grpc.ClientConnInterface
+
+// unwrapBytes decodes the protobuf encoding of a BytesValue.
+func unwrapBytes(data []byte) []byte {
+	m := new(wrapperspb.BytesValue)
+	if proto.Unmarshal(data, m) != nil {
+		return nil
+	}
+	return m.GetValue()
+}
